@@ -364,8 +364,50 @@ func (o *FilterOptimizer) optimizeEqualExpr(e *BinaryOpExpr) *ScanType {
 }
 
 func (o *FilterOptimizer) optimizeAndExpr(e *BinaryOpExpr) *ScanType {
-	lstype := o.optimizeExpr(e.Left)
-	rstype := o.optimizeExpr(e.Right)
+	// Scan types of the conjuncts: the operands of the whole chain of
+	// & / and operators below e, however they are nested, left to right
+	stypes := o.conjunctScanTypes(e, nil)
+
+	// Two conjuncts that cannot hold together means no keys should be scan,
+	// even when the conjuncts between them hide it from the pairwise
+	// combination below (PREFIX & RANGE may keep only the range)
+	for i, lstype := range stypes {
+		for _, rstype := range stypes[i+1:] {
+			if o.intersection(lstype, rstype).scanTp == EMPTY {
+				return &ScanType{EMPTY, nil}
+			}
+		}
+	}
+
+	// Combine the conjuncts along the expression tree
+	ret, _ := o.intersectConjuncts(e, stypes)
+	return ret
+}
+
+func isAndExpr(expr Expression) (*BinaryOpExpr, bool) {
+	e, ok := expr.(*BinaryOpExpr)
+	return e, ok && (e.Op == And || e.Op == KWAnd)
+}
+
+func (o *FilterOptimizer) conjunctScanTypes(expr Expression, stypes []*ScanType) []*ScanType {
+	if e, ok := isAndExpr(expr); ok {
+		return o.conjunctScanTypes(e.Right, o.conjunctScanTypes(e.Left, stypes))
+	}
+	return append(stypes, o.optimizeExpr(expr))
+}
+
+// intersectConjuncts combines the scan types of the conjuncts of expr, the
+// first ones of stypes, and returns the remaining scan types
+func (o *FilterOptimizer) intersectConjuncts(expr Expression, stypes []*ScanType) (*ScanType, []*ScanType) {
+	if e, ok := isAndExpr(expr); ok {
+		lstype, stypes := o.intersectConjuncts(e.Left, stypes)
+		rstype, stypes := o.intersectConjuncts(e.Right, stypes)
+		return o.intersection(lstype, rstype), stypes
+	}
+	return stypes[0], stypes[1:]
+}
+
+func (o *FilterOptimizer) intersection(lstype, rstype *ScanType) *ScanType {
 	if lstype.scanTp == rstype.scanTp {
 		switch lstype.scanTp {
 		case MGET:
